@@ -6,13 +6,13 @@
 #   selftest.sh seeded        (everything under seeded/*/)
 set -u
 cd "$(dirname "$0")"
-revert() { git -C /repo checkout -- . 2>/dev/null; git -C /repo clean -fdq -- tests 2>/dev/null; }
+revert() { git -C "${REPO_DIR:-/repo}" checkout -- . 2>/dev/null; git -C "${REPO_DIR:-/repo}" clean -fdq -- tests 2>/dev/null; }
 trap revert EXIT
 one() { # patch, props...
   local patch="$1"; shift
-  if [ -n "$(git -C /repo status --porcelain)" ]; then echo "SELFTEST: /repo not clean"; exit 2; fi
+  if [ -n "$(git -C "${REPO_DIR:-/repo}" status --porcelain)" ]; then echo "SELFTEST: /repo not clean"; exit 2; fi
   case "$patch" in /*) ;; *) patch="$(pwd)/$patch";; esac
-  if ! git -C /repo apply "$patch"; then echo "SELFTEST $patch: DOES-NOT-APPLY"; return; fi
+  if ! git -C "${REPO_DIR:-/repo}" apply "$patch"; then echo "SELFTEST $patch: DOES-NOT-APPLY"; return; fi
   local res=""
   for p in "$@"; do
     out=$(VERIF_SEED="${VERIF_SEED:-0}" ./check.sh "$p" quick 2>&1); rc=$?
